@@ -800,6 +800,34 @@ const PROBES: &[Probe] = &[
         order: "ORDER BY s DESC",
         keys: &[(0, true)],
     },
+    Probe {
+        name: "unsorted IN list with duplicates, ORDER BY served by ASC index on NOT NULL column",
+        setup: &["CREATE TABLE t (k INTEGER NOT NULL, v INTEGER)", "INSERT INTO t VALUES (3, 1), (1, 2), (4, 3), (2, 4), (2, 5), (5, 6), (1, 7), (6, 8)", "CREATE INDEX ik ON t (k)"],
+        base: "SELECT k, v FROM t WHERE k IN (4, 1, 3, 2, 2)",
+        order: "ORDER BY k",
+        keys: &[(0, false)],
+    },
+    Probe {
+        name: "unsorted IN list with duplicates, ORDER BY DESC served by (k DESC) index",
+        setup: &["CREATE TABLE t (k INTEGER, v INTEGER)", "INSERT INTO t VALUES (3, 1), (1, 2), (4, 3), (2, 4), (2, 5), (5, 6), (1, 7), (NULL, 8)", "CREATE INDEX ik ON t (k DESC)"],
+        base: "SELECT k, v FROM t WHERE k IN (4, 1, 3, 2, 2)",
+        order: "ORDER BY k DESC",
+        keys: &[(0, true)],
+    },
+    Probe {
+        name: "unsorted IN list AND another predicate, index-served ORDER BY",
+        setup: &["CREATE TABLE t (k INTEGER NOT NULL, v INTEGER)", "INSERT INTO t VALUES (3, 1), (1, 2), (4, 3), (2, 4), (2, 5), (5, 6), (1, 7), (6, 8)", "CREATE INDEX ik ON t (k)"],
+        base: "SELECT k, v FROM t WHERE k IN (5, 2, 4, 1, 1) AND v >= 3",
+        order: "ORDER BY k",
+        keys: &[(0, false)],
+    },
+    Probe {
+        name: "descending IN list, string keys, index-served ORDER BY DESC",
+        setup: &["CREATE TABLE t (k VARCHAR(10) NOT NULL, v INTEGER)", "INSERT INTO t VALUES ('b', 1), ('a', 2), ('d', 3), ('c', 4), ('c', 5), ('e', 6)", "CREATE INDEX ik ON t (k DESC)"],
+        base: "SELECT k, v FROM t WHERE k IN ('d', 'c', 'a', 'c') AND v < 6",
+        order: "ORDER BY k DESC",
+        keys: &[(0, true)],
+    },
     Probe { name: "empty table", setup: &["CREATE TABLE t (a INTEGER, b INTEGER)"], base: "SELECT a, b FROM t", order: "ORDER BY a, b DESC", keys: &[(0, false), (1, true)] },
 ];
 
@@ -829,6 +857,64 @@ fn run_probes(rep: &mut Report) {
         cx.rep.count("deterministic_probes");
         cx.rep.case(&format!("probe {}", p.name), nontrivial);
     }
+}
+
+/// generated: unsorted IN list (duplicates, values absent from the table) on a single-column index
+/// that also serves the ORDER BY; same query on a twin table without the index
+fn run_in_order(rep: &mut Report, rng: &mut Rng) {
+    let desc = rng.chance(1, 2);
+    let not_null = !desc || rng.chance(1, 2);
+    let n = *rng.pick(&[0usize, 1, 6, 12, 30, 110]);
+    let create = format!("CREATE TABLE t (k INTEGER{}, v INTEGER)", if not_null { " NOT NULL" } else { "" });
+    let mut vals = vec![];
+    for _ in 0..n {
+        let k = if !not_null && rng.chance(1, 6) { "NULL".to_string() } else { rng.range(-3, 9).to_string() };
+        vals.push(format!("({}, {})", k, rng.range(0, 5)));
+    }
+    let mut list: Vec<String> = (0..rng.range(2, 7)).map(|_| rng.range(-3, 10).to_string()).collect();
+    if rng.chance(1, 2) && list.len() > 1 {
+        let d = list[0].clone();
+        list.push(d);
+    }
+    if rng.chance(1, 4) {
+        list.push(if rng.chance(1, 2) { "2.0".into() } else { "7".into() });
+    }
+    let extra = if rng.chance(1, 3) { format!(" AND v >= {}", rng.range(0, 3)) } else { String::new() };
+    let base = format!("SELECT k, v FROM t WHERE k IN ({}){}", list.join(", "), extra);
+    let order = format!("ORDER BY k{}", if desc { " DESC" } else { "" });
+    let index = format!("CREATE INDEX ik ON t (k{})", if desc { " DESC" } else { "" });
+    let mut script = format!("{};\n", create);
+    let mut dbs = [Db::new(), Db::new()];
+    for (i, db) in dbs.iter_mut().enumerate() {
+        db.keep_log = false;
+        db.must(&create);
+        if !vals.is_empty() {
+            db.must(&format!("INSERT INTO t VALUES {}", vals.join(", ")));
+        }
+        if i == 1 {
+            db.must(&index);
+        }
+    }
+    if !vals.is_empty() {
+        script.push_str(&format!("INSERT INTO t VALUES {};\n", vals.join(", ")));
+    }
+    let ks = [KeySpec { idx: 0, desc }];
+    let len = dbs[0].query(&base).rows().map(|r| r.len()).unwrap_or(0);
+    let los = lo_set(rng, len, 5);
+    let case_id = format!("in-order {} {} {} {}", script, base, order, index);
+    let mut cx = Ctx { rep, script: script.clone(), kind: "in-list" };
+    let plain = check_ordered(&mut dbs[0], &base, &order, &ks, &los, &mut cx, "no index");
+    cx.script.push_str(&format!("{};\n", index));
+    let indexed = check_ordered(&mut dbs[1], &base, &order, &ks, &los, &mut cx, "with index");
+    let mut nontrivial = false;
+    if let (Some((_, fp)), Some((_, fi))) = (&plain, &indexed) {
+        nontrivial = fp.len() >= 2;
+        if key_strings(fp, &ks) != key_strings(fi, &ks) || bag(fp) != bag(fi) {
+            cx.rep.fail(FailKind::Oracle, None, "in-list: ordered result differs with and without the index", &format!("{}-- query: {} {}\nwithout: {}\nwith:    {}", cx.script, base, order, rows_sx_vals(fp), rows_sx_vals(fi)));
+        }
+    }
+    cx.rep.count(&format!("in_list_order_{}", if desc { "desc" } else { "asc" }));
+    cx.rep.case(&case_id, nontrivial);
 }
 
 /// regression probe for 1db75cd3: SIMD filter path (>= 100 rows, WHERE) with a NULL in the first row's VARCHAR
@@ -867,6 +953,10 @@ fn main() {
     let n = args.n(1500, 40000);
     for i in 0..n {
         let mut r = rng.fork();
+        if i % 5 == 2 {
+            let mut r2 = r.fork();
+            run_in_order(&mut rep, &mut r2);
+        }
         match i % 10 {
             0..=4 => {
                 let class = match i % 50 {
